@@ -233,6 +233,20 @@ def init (ta0 rr0 : Bool) (in0 : Bytes) (initWait : Nat) (txDelays : List Nat)
     (rxPlan : List (Nat × Bytes)) : Sys :=
   ⟨{}, ⟨.idle, initWait, ⟨ta0, false, none, txDelays⟩, ⟨rr0, in0, false, false, rxPlan⟩⟩, Out.zero⟩
 
+/-- drain phase of a run: from now on the terminal answers without delay (a noticed request is accepted in
+the next cycle, every further chunk of the receive plan is announced as soon as the previous one is
+acknowledged, a still unanswered init request is answered at once) -/
+def Term.drain (t : Term) : Term :=
+  { t with
+    initWait := 0
+    tx := { t.tx with wait := t.tx.wait.map fun _ => 0, delays := [] }
+    rx := { t.rx with plan := t.rx.plan.map fun p => (0, p.2) } }
+
+def Sys.drain (s : Sys) : Sys := { s with t := s.t.drain }
+
+/-- `n` further cycles without application writes -/
+def idle (n : Nat) : List Bytes := List.replicate n []
+
 /-! ### projections of a trace -/
 
 def reads (tr : List Obs) : List Bytes := tr.filterMap (·.readChunk)
